@@ -23,6 +23,7 @@ enum Op {
     BrowseCache,
     StopBrowse,
     Resolve,
+    ResolveCapsTimeout,
     StopResolve,
     Register,
     Unregister,
@@ -30,7 +31,7 @@ enum Op {
     UnsolicitedOff,
     Idle10s,
 }
-const OPS: [Op; 21] = [
+const OPS: [Op; 22] = [
     Op::UnbrowsedTypeStream,
     Op::OrphanStream,
     Op::BrowsedStream,
@@ -46,6 +47,7 @@ const OPS: [Op; 21] = [
     Op::BrowseCache,
     Op::StopBrowse,
     Op::Resolve,
+    Op::ResolveCapsTimeout,
     Op::StopResolve,
     Op::Register,
     Op::Unregister,
@@ -84,6 +86,7 @@ fn run_case_lb(seq: &[Op], loopback: bool, trace: bool) -> CaseResult {
     let mut trail = String::new();
     let metrics = |w: &mut World| -> HashMap<String, i64> { w.metrics(0).unwrap_or_default() };
     let g = |m: &HashMap<String, i64>, k: &str| m.get(k).copied().unwrap_or(0);
+    let mut caps_until = 0u64;
     for (k, op) in seq.iter().enumerate() {
         let before = metrics(&mut w);
         match op {
@@ -230,6 +233,13 @@ fn run_case_lb(seq: &[Op], loopback: bool, trace: bool) -> CaseResult {
                 }
                 browsing = false;
             }
+            Op::ResolveCapsTimeout => {
+                // a search that ends by itself after 3 s, for a name given with capital letters
+                let rx = w.ds[0].h.resolve_hostname("Other-Host.local.", Some(3000)).unwrap();
+                w.add_host(0, rx);
+                w.poke(0);
+                caps_until = w.now + 3000;
+            }
             Op::Resolve => {
                 let rx = w.ds[0].h.resolve_hostname("host.local.", None).unwrap();
                 w.add_host(0, rx);
@@ -263,6 +273,8 @@ fn run_case_lb(seq: &[Op], loopback: bool, trace: bool) -> CaseResult {
             Op::Idle10s => w.advance(10_000),
         }
         let after = metrics(&mut w);
+        // (while the self-ending search is open it counts as a resolver being open)
+        let resolving = resolving || w.now <= caps_until;
         res.transitions += 1;
         trail.push_str(&format!("{op:?}:{:?};", CACHED.iter().map(|c| g(&after, c)).chain([g(&after, "timer")]).collect::<Vec<_>>()));
         let traffic = matches!(op, Op::UnbrowsedTypeStream | Op::OrphanStream | Op::BrowsedStream | Op::BrowsedStreamLong | Op::AnnounceGoodbyeRepeat | Op::AnnounceRepeat | Op::AnnounceRepeatLong | Op::UpdateStream | Op::UpdateStreamLong | Op::PtrTxtOnlyStream | Op::HostileCorpus);
